@@ -245,6 +245,9 @@ func classifyNative(v *violation, res string) string {
 			return "reproduced: native process terminated (" + res + ")"
 		}
 	case "self-deadlock":
+		if strings.Contains(v.Msg, "recursive RLock") {
+			return "not-replayable (a recursive read lock only blocks when a writer arrives between the two RLock calls; decided by the mutex model)"
+		}
 		if res == "deadlock" || strings.HasPrefix(res, "timeout") {
 			return "reproduced: native run blocks forever (" + res + ")"
 		}
